@@ -260,6 +260,10 @@ pub fn cfg_set(name: &str) -> Vec<Cfg> {
                 mk(25, "always_wrap", false, false, 2, 4, "crlf"),
                 mk(35, "auto", true, true, 255, 255, "lf"),
                 mk(45, "auto", true, false, 15, 17, "lf"),
+                // the continuation is wider than the line (and the width is no multiple of the unit)
+                mk(20, "auto", true, false, 8, 3, "lf"),
+                mk(30, "always_wrap", true, false, 7, 5, "crlf"),
+                mk(13, "auto", false, false, 6, 4, "lf"),
             ]);
             v
         }
